@@ -159,7 +159,10 @@ def Ctx.cmpLC (c : Ctx) (path : Bytes) (o : Op) (right : Bytes) : Bool × Ctx :=
       | some (.ins v k) => match insLength k v sub with
         | some n => (((Val.int n).cmpLit o right).getD false, c)
         | none => (false, c)
-      | some _ => (((Val.int 0).cmpLit o right).getD false, c)   -- static inspector on nil: length 0
+      | some (.bytes b) =>
+        -- bytes variable: its own buffer (repair); an empty one reads as nil: length 0
+        (((Val.int b.length).cmpLit o right).getD false, c)
+      | some (.cntr _) => (((Val.int 0).cmpLit o right).getD false, c)   -- static inspector on nil: length 0
       | none => (false, c)
 
 /-! ### Modifiers -/
@@ -228,7 +231,7 @@ def applyMod (c : Ctx) (id : Bytes) (val : Val) (args : List ArgVal) : Option (E
   else if id == lit "jsonEscape" || id == lit "je" then some (escMod Json.escape val args true, c)
   else if id == lit "jsonQuote" || id == lit "jq" then
     some (match val.text with
-      | none => (.ok (.bytes []), c)            -- inner error: empty result
+      | none => (.ok (.bytes (iterate Json.quote (printIterations args - 1) [])), c)  -- first pass fails: empty result, later passes quote it
       | some b => (.ok (.bytes (iterate Json.quote (printIterations args) b)), c))
   else if id == lit "htmlEscape" || id == lit "he" then some (escMod Html.escape val args true, c)
   else if id == lit "linkEscape" || id == lit "le" then some (escMod Url.linkEscape val args true, c)
@@ -289,6 +292,12 @@ structure Res where
 def ok (st : St) : Res := ⟨st, none⟩
 def fail (st : St) (e : Err) : Res := ⟨st, some e⟩
 
+/-- Run `k` from the state of `r` unless `r` already carries an error. -/
+def Res.andThen (r : Res) (k : St → Res) : Res :=
+  match r.err with
+  | some _ => r
+  | none => k r.st
+
 def St.write (s : St) (p : Bytes) : Res :=
   match s.w.write p with
   | (w, true) => ok { s with w := w }
@@ -302,6 +311,30 @@ def regionEscape (c : Ctx) (p : Bytes) : Bytes :=
   else if c.chHE then Html.escape p
   else if c.chUE then Url.encode p
   else p
+
+/-- The writes of a print node: prefix, value, suffix (prefix and suffix are escaped inside a region,
+    the value too unless it is marked raw). The first failing write ends the node. -/
+def tplWrites (s : St) (pre t suf : Bytes) (noesc : Bool) : Res :=
+  let esc := fun (p : Bytes) => regionEscape s.c p
+  (if pre.isEmpty then ok s else s.write (esc pre)).andThen fun s1 =>
+  (s1.write (if noesc then t else esc t)).andThen fun s2 =>
+  if suf.isEmpty then ok s2 else s2.write (esc suf)
+
+/-- `typeInclude` after the nested render `r` into the scratch buffer: an error is passed on,
+    otherwise the buffer is copied out with one write. -/
+def inclFinish (s : St) (r : Res) : Res :=
+  match r.err with
+  | some e => ⟨{ s with c := r.st.c }, some e⟩
+  | none => ({ s with c := r.st.c } : St).write r.st.w.out
+
+/-- A `case` node's specification, if the node is one. -/
+def Node.asCase : Node → Option CaseSpec
+  | .case_ k _ => some k
+  | _ => none
+
+def Node.isDefault : Node → Bool
+  | .default_ _ => true
+  | _ => false
 
 /-- Collect the arguments of one modifier call (`ctx.bufA`). -/
 def collectArgs (c : Ctx) : List Arg → List ArgVal × Ctx
@@ -351,8 +384,9 @@ def nodeCmp (c : Ctx) (l r : Bytes) (sl sr : Bool) (o : Op) : Bool × Option Err
 /-- `cloopRange`: initial value / bound of a counter loop. -/
 def cloopRange (c : Ctx) (static : Bool) (b : Bytes) : Except Err Int × Ctx :=
   if static then
+    -- `r, ctx.Err = strconv.ParseInt(...)`: ctx.Err is overwritten either way
     match parseIntLit b with
-    | some n => (.ok n, c)
+    | some n => (.ok n, { c with err := none })
     | none => (.error .wrongLoopLim, { c with err := some .wrongLoopLim })
   else
     let (v, c1) := c.get b
@@ -375,6 +409,125 @@ def loopAllows (o : Op) (v lim : Int) : Option Bool :=
 def convInt : Val → Int
   | .int n => n
   | _ => 0
+
+/-! ### Context-only parts of the node semantics -/
+
+/-- Outcome of evaluating the value of a print tag. -/
+inductive PrintOut
+  | stop (e : Option Err)     -- return now with this error (`none`: nothing to print)
+  | text (t : Bytes)          -- non-empty text to write
+  deriving Repr, Inhabited
+
+/-- `typeTpl` up to the point where bytes are written: lookup, modifier chain, emptiness, conversion. -/
+def evalPrint (c : Ctx) (path : Bytes) (mods : List Mod) : Ctx × PrintOut :=
+  let (raw, c1) := c.get path
+  match c1.err with
+  | some e => (c1, .stop (some e))
+  | none =>
+    let (raw, c2) := runMods c1 raw mods
+    match c2.err with
+    | some _ => (c2, .stop none)               -- a failing modifier silently ends this print
+    | none =>
+      if raw.isNilOrEmptyStr then (c2, .stop none) else
+      match raw.text with
+      | none => (c2, .stop (some .unknownType))
+      | some t => if t.isEmpty then (c2, .stop none) else (c2, .text t)
+
+/-- `typeCtx`. -/
+def ctxNode (c : Ctx) (cs : CtxSpec) : Ctx × Option Err :=
+  if cs.srcStatic then (c.setBytes cs.var cs.src, none) else
+  -- GetInspector(var, ins): "static" unless a var-inspector pair is registered; other names fail
+  if !(cs.ins == lit "static" || cs.ins == lit "TestObject" || cs.ins == lit "TestHistory" || cs.ins == lit "strings") then
+    (c, some .unknownInspector)
+  else
+  let kind : InsKind := if cs.ins == lit "static" then .static else if cs.ins == lit "strings" then .strings else .obj
+  let (raw, c1) := c.get cs.src
+  match c1.err with
+  | some e => (c1, some e)
+  | none =>
+    let (raw, c2) := runMods c1 raw cs.mods
+    match c2.err with
+    | some e => (c2, some e)
+    | none =>
+      -- nil, "", and (after the repair) empty strings / bytes behind pointers
+      let empty := raw.isNilOrEmptyStr || (match raw with | .bytes b => b.isEmpty | .str s => s.isEmpty | _ => false)
+      let c3 := if cs.ok.isEmpty then c2 else c2.setStatic cs.ok (.bool (!empty))
+      if empty then (c3, none) else
+      match raw with
+      | .bytes b => if b.isEmpty then (c3.set cs.var raw kind, none) else (c3.setBytes cs.var b, none)
+      | _ => (c3.set cs.var raw kind, none)
+
+/-- Two's-complement wrap-around of Go's `int` arithmetic. -/
+def wrap64 (x : Int) : Int := (x + 9223372036854775808) % 18446744073709551616 - 9223372036854775808
+
+/-- `typeCounter`. -/
+def counterNode (c : Ctx) (cs : CntrSpec) : Ctx × Option Err :=
+  if cs.initF then (c.setCounter cs.var cs.init, none) else
+  let (raw, c1) := c.get cs.var
+  match c1.err with
+  | some e => (c1, some e)
+  | none =>
+    let cur := convInt raw
+    let nv := if cs.op == .inc then cur + cs.opArg else cur - cs.opArg
+    (c1.setCounter cs.var (wrap64 nv), none)
+
+/-- Outcome of evaluating a condition. -/
+inductive CondOut
+  | stop (e : Err)                               -- return this error now
+  | branch (r : Bool) (pending : Option Err)     -- take branch `r`; `pending` is returned if that branch is absent
+  deriving Repr, Inhabited
+
+/-- The three evaluation modes of `typeCond`. Helper-not-found / no-args errors and `ctx.Err` return at
+    once; an error of `nodeCmp` is only kept in `err` and is overwritten by the result of the branch
+    that runs (dyntpl.go: `r, err = t.nodeCmp(...)`). -/
+def evalCond (c : Ctx) (cd : CondSpec) : Ctx × CondOut :=
+  if !cd.hlp.isEmpty && cd.lc == 0 then
+    let (args, c1) := collectHlpArgs c cd.hlpArg
+    match applyCondFn cd.hlp args with
+    | none => (c1, .stop .condHlpNotFound)
+    | some b => match c1.err with
+      | some e => (c1, .stop e)
+      | none => (c1, .branch b none)
+  else if !cd.hlp.isEmpty then
+    match cd.hlpArg with
+    | [] => (c, .stop .modNoArgs)
+    | a :: _ =>
+      let (b, c1) := c.cmpLC a.val cd.op cd.r
+      match c1.err with
+      | some e => (c1, .stop e)
+      | none => (c1, .branch b none)
+  else
+    let (b, e, c1) := nodeCmp c cd.l cd.r cd.staticL cd.staticR cd.op
+    match c1.err with
+    | some e' => (c1, .stop e')
+    | none => (c1, .branch b e)
+
+/-- One `case` of a switch: `stop e` or `branch matched none`. -/
+def evalCase (c : Ctx) (arg : Bytes) (k : CaseSpec) : Ctx × CondOut :=
+  if !arg.isEmpty then
+    -- classic switch: switchArg == caseL
+    if k.staticL then let (b, c1) := c.cmp arg .eq k.l; (c1, .branch b none)
+    else
+      let (v, c1) := c.get k.l
+      match c1.err with
+      | some _ => (c1, .branch false none)
+      | none => match v.text with
+        | none => (c1, .stop .unknownType)
+        | some t => let (b, c2) := c1.cmp arg .eq t; (c2, .branch b none)
+  else if !k.hlp.isEmpty then
+    let (args, c1) := collectHlpArgs c k.hlpArg
+    match applyCondFn k.hlp args with
+    | none => (c1, .stop .condHlpNotFound)
+    | some b => match c1.err with
+      | some e => (c1, .stop e)
+      | none => (c1, .branch b none)
+  else
+    let (b, e, c1) := nodeCmp c k.l k.r k.staticL k.staticR k.op
+    match e with
+    | some e => (c1, .stop e)
+    | none => match c1.err with
+      | some e => (c1, .stop e)
+      | none => (c1, .branch b none)
 
 def isSentinel (e : Err) : Bool := e == .breakLoop || e == .contLoop
 
@@ -432,6 +585,14 @@ def cloopLoop (run : St → Res) (ls : CLoopSpec) : Nat → Int → Int → Nat 
             else cloopLoop run ls f v' lim (n+1) sv
           | _ => ⟨n+1, { sb with c := { sb.c with err := some .wrongLoopOp } }, true⟩
 
+/-- The for-else branch: `if ctx.Err = tpl.writeNode(w, ch, ctx); ctx.Err != nil { break }` — the result
+    of every child is ASSIGNED to `ctx.Err`, so a successful non-empty branch clears a stale error. -/
+def elseRun (run : St → Res) (nonEmpty : Bool) (s : St) : Res :=
+  let x := run s
+  match x.err with
+  | some e => ok { x.st with c := { x.st.c with err := some e } }
+  | none => ok (if nonEmpty then { x.st with c := { x.st.c with err := none } } else x.st)
+
 /-- `Ctx.cloop`: bounds, the loop, the else-branch. Errors are reported through `ctx.Err`. -/
 def cloopWith (run : St → Res) (runElse : Option (St → Res)) (fuel : Nat) (ls : CLoopSpec) (s : St) : Res :=
   let (cnt, c1) := cloopRange s.c ls.cntStatic ls.cntInit
@@ -446,12 +607,7 @@ def cloopWith (run : St → Res) (runElse : Option (St → Res)) (fuel : Nat) (l
       if r.abort then ok r.st else
       if r.n == 0 then
         match runElse with
-        | some re =>
-          -- for-else: an error of a child goes to ctx.Err
-          let x := re r.st
-          (match x.err with
-           | some e => ok { x.st with c := { x.st.c with err := some e } }
-           | none => ok x.st)
+        | some re => re r.st
         | none => ok r.st
       else ok r.st
 
@@ -477,6 +633,12 @@ def rloopLoop (run : St → Res) (ls : RLoopSpec) : List (Bytes × Val × InsKin
         if sb.c.brkD > 0 then ⟨n+1, { sb with c := { sb.c with brkD := sb.c.brkD - 1 } }, false⟩
         else rloopLoop run ls rest (n+1) sb
 
+/-- What `Inspector.Loop` iterates over for a variable. -/
+def loopItems (vv : VarVal) (sub : List Bytes) : List (Bytes × Val × InsKind) :=
+  match vv with
+  | .ins v k => insLoop k v sub
+  | _ => []
+
 /-- `Ctx.rloop`. -/
 def rloopWith (run : St → Res) (runElse : Option (St → Res)) (ls : RLoopSpec) (s : St) : Res :=
   match splitDots ls.src with
@@ -485,21 +647,14 @@ def rloopWith (run : St → Res) (runElse : Option (St → Res)) (ls : RLoopSpec
     match getVar s.c.vars name with
     | none => ok s
     | some vv =>
-      let items : List (Bytes × Val × InsKind) := match vv with
-        | .ins v k => insLoop k v sub
-        | _ => []
-      let r := rloopLoop run ls items 0 s
+      let r := rloopLoop run ls (loopItems vv sub) 0 s
       -- `ctx.Err = v.ins.Loop(...)`: the inspector's result (nil) replaces whatever was there;
       -- an error caught inside an iteration (rl.err) is put back and the function returns
       if r.abort then ok r.st else
       let s2 : St := { r.st with c := { r.st.c with err := none } }
       if r.n == 0 then
         match runElse with
-        | some re =>
-          let x := re s2
-          (match x.err with
-           | some e => ok { x.st with c := { x.st.c with err := some e } }
-           | none => ok x.st)
+        | some re => re s2
         | none => ok s2
       else ok s2
 
@@ -522,19 +677,14 @@ def writeTree (reg : Registry) : Nat → List Node → St → Res
   | 0, _, s => fail s .outOfFuel
   | f+1, nodes, s =>
     let r := writeSeq reg f nodes s
-    match r.err with
-    | some .interrupt => ⟨{ r.st with c := { r.st.c with err := none } }, none⟩
-    | _ => r
+    if r.err = some .interrupt then ⟨{ r.st with c := { r.st.c with err := none } }, none⟩ else r
 
 /-- Walk a node list, stop at the first error (also used by condTrue / condFalse / case / default). -/
 def writeSeq (reg : Registry) : Nat → List Node → St → Res
   | 0, _, s => fail s .outOfFuel
   | _+1, [], s => ok s
   | f+1, n :: rest, s =>
-    let r := writeNode reg f n s
-    match r.err with
-    | some _ => r
-    | none => writeSeq reg f rest r.st
+    (writeNode reg f n s).andThen fun s1 => writeSeq reg f rest s1
 
 /-- `Tpl.writeNode`. -/
 def writeNode (reg : Registry) : Nat → Node → St → Res
@@ -543,102 +693,37 @@ def writeNode (reg : Registry) : Nat → Node → St → Res
     match node with
     | .raw b => s.write (regionEscape s.c b)
     | .tpl path mods noesc pre suf =>
-      let (raw, c1) := s.c.get path
-      match c1.err with
-      | some e => fail { s with c := c1 } e
-      | none =>
-        let (raw, c2) := runMods c1 raw mods
-        let s2 := { s with c := c2 }
-        match c2.err with
-        | some _ => ok s2                      -- a failing modifier silently ends this print
-        | none =>
-          if raw.isNilOrEmptyStr then ok s2 else
-          match raw.text with
-          | none => fail s2 .unknownType
-          | some t =>
-            if t.isEmpty then ok s2 else
-            let esc := fun (p : Bytes) => regionEscape c2 p
-            let r1 := if pre.isEmpty then ok s2 else s2.write (esc pre)
-            match r1.err with
-            | some _ => r1
-            | none =>
-              let r2 := r1.st.write (if noesc then t else esc t)
-              match r2.err with
-              | some _ => r2
-              | none => if suf.isEmpty then r2 else r2.st.write (esc suf)
+      let (c2, o) := evalPrint s.c path mods
+      let s2 : St := { s with c := c2 }
+      (match o with
+       | .stop e => ⟨s2, e⟩
+       | .text t => tplWrites s2 pre t suf noesc)
     | .ctx cs =>
-      if cs.srcStatic then ok { s with c := s.c.setBytes cs.var cs.src } else
-      -- GetInspector(var, ins): "static" unless a var-inspector pair is registered; other names fail
-      if !(cs.ins == lit "static" || cs.ins == lit "TestObject" || cs.ins == lit "TestHistory" || cs.ins == lit "strings") then
-        fail s .unknownInspector
-      else
-      let kind : InsKind := if cs.ins == lit "static" then .static else if cs.ins == lit "strings" then .strings else .obj
-      let (raw, c1) := s.c.get cs.src
-      match c1.err with
-      | some e => fail { s with c := c1 } e
-      | none =>
-        let (raw, c2) := runMods c1 raw cs.mods
-        match c2.err with
-        | some e => fail { s with c := c2 } e
-        | none =>
-          let empty := raw.isNilOrEmptyStr
-          let c3 := if cs.ok.isEmpty then c2 else c2.setStatic cs.ok (.bool (!empty))
-          if empty then ok { s with c := c3 } else
-          match raw with
-          | .bytes b => if b.isEmpty then ok { s with c := c3.set cs.var raw kind }
-                        else ok { s with c := c3.setBytes cs.var b }
-          | _ => ok { s with c := c3.set cs.var raw kind }
+      let (c', e) := ctxNode s.c cs
+      ⟨{ s with c := c' }, e⟩
     | .counter cs =>
-      if cs.initF then ok { s with c := s.c.setCounter cs.var cs.init } else
-      let (raw, c1) := s.c.get cs.var
-      match c1.err with
-      | some e => fail { s with c := c1 } e
-      | none =>
-        let cur := convInt raw
-        let nv := if cs.op == .inc then cur + cs.opArg else cur - cs.opArg
-        ok { s with c := c1.setCounter cs.var nv }
+      let (c', e) := counterNode s.c cs
+      ⟨{ s with c := c' }, e⟩
     | .condOK => fail s .unsupported
     | .cond cd child =>
-      -- which of the three evaluation modes
-      let (r, e, c1) : Bool × Option Err × Ctx :=
-        if !cd.hlp.isEmpty && cd.lc == 0 then
-          let (args, c1) := collectHlpArgs s.c cd.hlpArg
-          match applyCondFn cd.hlp args with
-          | none => (false, some .condHlpNotFound, c1)
-          | some b => (b, none, c1)
-        else if !cd.hlp.isEmpty then
-          match cd.hlpArg with
-          | [] => (false, some .modNoArgs, s.c)
-          | a :: _ => let (b, c1) := s.c.cmpLC a.val cd.op cd.r; (b, none, c1)
-        else nodeCmp s.c cd.l cd.r cd.staticL cd.staticR cd.op
-      let s1 := { s with c := c1 }
-      -- helper-not-found / no-args errors return at once; an error of `nodeCmp` is only kept in `err`
-      -- and is overwritten by the result of the branch that runs (dyntpl.go: `r, err = t.nodeCmp(...)`).
-      let immediate := !cd.hlp.isEmpty
-      match (if immediate then e else none) with
-      | some e => fail s1 e
-      | none =>
-        match c1.err with
-        | some e => fail s1 e
-        | none =>
-          if r then
-            match child with
-            | t :: _ => writeNode reg f t s1
-            | [] => ⟨s1, e⟩
-          else
-            match child with
-            | _ :: el :: _ => writeNode reg f el s1
-            | _ => ⟨s1, e⟩
+      let (c1, o) := evalCond s.c cd
+      let s1 : St := { s with c := c1 }
+      (match o with
+       | .stop e => fail s1 e
+       | .branch r pending =>
+         match (if r then child[0]? else child[1]?) with
+         | some n => writeNode reg f n s1
+         | none => ⟨s1, pending⟩)
     | .condTrue child => writeSeq reg f child s
     | .condFalse child => writeSeq reg f child s
     | .case_ _ child => writeSeq reg f child s
     | .default_ child => writeSeq reg f child s
     | .cloop ls child =>
       let (body, els) := loopParts child
-      loopNode (cloopWith (fun st => writeSeq reg f body st) (els.map (fun e st => writeSeq reg f e st)) f ls) s
+      loopNode (cloopWith (fun st => writeSeq reg f body st) (els.map (fun e st => elseRun (fun st' => writeSeq reg f e st') (!e.isEmpty) st)) f ls) s
     | .rloop ls child =>
       let (body, els) := loopParts child
-      loopNode (rloopWith (fun st => writeSeq reg f body st) (els.map (fun e st => writeSeq reg f e st)) ls) s
+      loopNode (rloopWith (fun st => writeSeq reg f body st) (els.map (fun e st => elseRun (fun st' => writeSeq reg f e st') (!e.isEmpty) st)) ls) s
     | .brk d => fail { s with c := { s.c with brkD := max s.c.brkD (max d 1) } } .breakLoop
     | .lbrk d => ok { s with c := { s.c with brkD := max s.c.brkD (max d 1) } }
     | .cont => fail s .contLoop
@@ -647,12 +732,8 @@ def writeNode (reg : Registry) : Nat → Node → St → Res
       match reg.getBKeys names with
       | none => fail s .tplNotFound
       | some nodes =>
-        -- nested write into a scratch buffer (same fault-free writer), then one copy out
-        let inner : St := { c := s.c, w := {} }
-        let r := writeTree reg f nodes inner
-        match r.err with
-        | some e => ⟨{ s with c := r.st.c }, some e⟩
-        | none => ({ s with c := r.st.c } : St).write r.st.w.out
+        -- nested write into a scratch buffer (a writer that cannot fail), then one copy out
+        inclFinish s (writeTree reg f nodes { c := s.c, w := {} })
     | .exit => fail s .interrupt
     | .jsonQ => ok { s with c := { s.c with chJQ := true } }
     | .endJsonQ => ok { s with c := { s.c with chJQ := false } }
@@ -671,42 +752,18 @@ def switchNode (reg : Registry) : Nat → Bytes → List Node → List Node → 
     match cs with
     | [] =>
       -- no case matched: default, if any
-      match all.find? (fun n => match n with | .default_ _ => true | _ => false) with
+      match all.find? Node.isDefault with
       | some d => writeNode reg f d s
       | none => ok s
     | ch :: rest =>
-      match ch with
-      | .case_ k _ =>
-        if !arg.isEmpty then
-          -- classic switch: switchArg == caseL
-          let (r, e, c1) : Bool × Option Err × Ctx :=
-            if k.staticL then let (b, c1) := s.c.cmp arg .eq k.l; (b, none, c1)
-            else
-              let (v, c1) := s.c.get k.l
-              match c1.err with
-              | some _ => (false, none, c1)
-              | none => match v.text with
-                | none => (false, some .unknownType, c1)
-                | some t => let (b, c2) := c1.cmp arg .eq t; (b, none, c2)
-          let s1 := { s with c := c1 }
-          match e with
-          | some e => fail s1 e
-          | none => if r then writeNode reg f ch s1 else switchNode reg f arg all rest s1
-        else
-          let (r, e, c1) : Bool × Option Err × Ctx :=
-            if !k.hlp.isEmpty then
-              let (args, c1) := collectHlpArgs s.c k.hlpArg
-              match applyCondFn k.hlp args with
-              | none => (false, some .condHlpNotFound, c1)
-              | some b => (b, none, c1)
-            else nodeCmp s.c k.l k.r k.staticL k.staticR k.op
-          let s1 := { s with c := c1 }
-          match e with
-          | some e => fail s1 e
-          | none => match c1.err with
-            | some e => fail s1 e
-            | none => if r then writeNode reg f ch s1 else switchNode reg f arg all rest s1
-      | _ => switchNode reg f arg all rest s
+      match ch.asCase with
+      | some k =>
+        let (c1, o) := evalCase s.c arg k
+        let s1 : St := { s with c := c1 }
+        (match o with
+         | .stop e => fail s1 e
+         | .branch r _ => if r then writeNode reg f ch s1 else switchNode reg f arg all rest s1)
+      | none => switchNode reg f arg all rest s
 
 end
 
@@ -716,10 +773,7 @@ def Ctx.runDeferred (c : Ctx) : Ctx :=
 
 /-- `write`: the outermost template; deferred functions run once, after all output. -/
 def write (reg : Registry) (fuel : Nat) (nodes : List Node) (s : St) : Res :=
-  let r := writeTree reg fuel nodes s
-  match r.err with
-  | some _ => r
-  | none => ok { r.st with c := r.st.c.runDeferred }
+  (writeTree reg fuel nodes s).andThen fun st => ok { st with c := st.c.runDeferred }
 
 /-- `Write(w, key, ctx)`: lookup first; not found → error before any write. -/
 def writeKey (reg : Registry) (fuel : Nat) (key : Bytes) (s : St) : Res :=
